@@ -326,6 +326,10 @@ class PropertyCheck:
             hooks_mod = [m for m in sys.modules if m.startswith("contracts.") and
                          any(v is con for v in getattr(sys.modules[m], "REGISTRY", {}).values())]
             hooks_mod = self.lemma_module_of(con)
+        auto = False
+        if not hooks_mod and not is_lemma and getattr(con, "defined_in", None) and self.auto_applicable(con):
+            # no hand-written builder: generic replay (scalars / lists / bytes / value records) on the real function
+            hooks_mod, auto = con.defined_in, True
         if ob.kind in ("post", "exc", "frame") and hooks_mod:
             try:
                 m = verify.model_for(ob)
@@ -338,7 +342,7 @@ class PropertyCheck:
         if model_inputs is not None:
             try:
                 out = run_driver({"mode": "replay", "contract_module": hooks_mod, "key": key,
-                                  "inputs": model_inputs, "timeout_s": 5.0, "lemma": is_lemma})
+                                  "inputs": model_inputs, "timeout_s": 5.0, "lemma": is_lemma, "auto": auto})
                 if out["violations"]:
                     confirmed = out["violations"][0]
                 elif out["problems"]:
@@ -347,7 +351,7 @@ class PropertyCheck:
                     self.say(f"SPURIOUS obligation={label} counter-model does not reproduce on the real code")
             except Exception as e:
                 self.say(f"NOTE replay driver failed for {label}: {e!r}")
-        if confirmed is None and hooks_mod and not is_lemma:
+        if confirmed is None and hooks_mod and not is_lemma and not auto:
             # finite-instantiation / small-scope search on the real function
             try:
                 out = self.bounded_job(hooks_mod, key, record=False)
@@ -374,6 +378,16 @@ class PropertyCheck:
         else:
             self.undecided.append({"function": key, "obligation": label, "why": "refuted VC not reproduced and not in baseline"})
             self.say(f"UNDECIDED obligation={label} reason=refuted-not-reproduced")
+
+    def auto_applicable(self, con):
+        sys.path.insert(0, os.path.join(HERE, "drivers"))
+        try:
+            import runner as _r
+            return _r.auto_applicable(con)
+        except Exception:
+            return False
+        finally:
+            sys.path.pop(0)
 
     def lemma_module_of(self, con):
         for name, m in sys.modules.items():
